@@ -172,8 +172,15 @@ fn data_eq(r: &ExpressionResult, d: &Data) -> bool { match r { Ok(v) => { let x 
 
 /// catalogue of concrete expressions covering the documented semantics (mixed types, comparison, logic, aggregation, member / index access, whitespace and parentheses)
 fn mixed_catalogue() {
-    let k = vnd_conc(vnd_range(0, 31, 1), 31);
+    let k = vnd_conc(vnd_range(0, 37, 1), 37);
     let (t, want): (&str, Data) = match k {
+        // string comparisons at the boundary (equal operands) and away from it
+        32 => ("'abc' >= 'abc'", Data::Boolean(true)),
+        33 => ("'abc' <= 'abc'", Data::Boolean(true)),
+        34 => ("'abc' > 'abc'", Data::Boolean(false)),
+        35 => ("'abc' < 'abc'", Data::Boolean(false)),
+        36 => ("'abd' >= 'abc'", Data::Boolean(true)),
+        37 => ("'abc' >= 'abd'", Data::Boolean(false)),
         // comparisons of Integers beyond 2^53 (exact, not through f64)
         28 => ("9007199254740993 > 9007199254740992", Data::Boolean(true)),
         29 => ("9223372036854775806 < 9223372036854775807", Data::Boolean(true)),
@@ -239,6 +246,11 @@ fn cache_vs_fresh() {
     // a different text under a different id is not confused with the cached one
     let other = dm.execute(&Data::Source(SourceCode::new("b", 78)));
     vnd_check(1031, result_int(&other) == Some(3));
+    // sources without an id (param / content / location expressions) are never served from the cache: two different id-less
+    // texts evaluated one after the other each give their own value
+    let idless = dm.execute(&Data::Source(SourceCode::new("b + 1", 0)));
+    let again = dm.execute(&Data::Source(SourceCode::new(text, 0)));
+    vnd_check(1032, result_int(&idless) == Some(4) && result_int(&again) == f);
     vnd_obs(1, f.unwrap_or(0) as u64);
 }
 
@@ -289,8 +301,10 @@ fn alias_no_deadlock() {
       gd.data.set_undefined("a".to_string(), Data::Integer(vnd_i64(1)));
       gd.data.set_undefined("arr".to_string(), Data::Array(vec![create_data_arc(Data::Integer(0)), create_data_arc(Data::Integer(1))]));
       gd.data.set_undefined("m".to_string(), Data::Map(std::collections::HashMap::new())); }
-    let k = vnd_conc(vnd_range(0, 19, 2), 19);
+    let k = vnd_conc(vnd_range(0, 22, 2), 22);
     let text = match k {
+        // a container indexed by a container that contains it: the key is rendered as text while the container is held
+        20 => "m[[m]]", 21 => "m[{'k': m}]", 22 => "arr[[arr]]",
         // one operand nested inside the other one: the comparison reaches a value that the evaluation already holds
         16 => "arr == [arr]", 17 => "[arr] != arr", 18 => "m == {'k': m}", 19 => "arr == [arr, arr]",
         0 => "a = a", 1 => "a ?= a", 2 => "a + a", 3 => "a == a", 4 => "arr[arr[0]]", 5 => "arr = arr", 6 => "a = a + a", 7 => "arr + arr", 8 => "m = m",
